@@ -124,10 +124,10 @@ def _emit_unit(gen, u):
             rep["source"] = "contracts/verus/units.py (no repo code)"
         else:
             src = _read(gen, u["file"])
-            s0, s1 = 0, len(src)
             if u.get("impl"):
-                s0, s1 = extract.find_impl_block(src, u["impl"])
-            info = extract.find_fn(src, u["fn"], s0, s1)
+                info = extract.find_fn_in_impls(src, u["fn"], u["impl"])
+            else:
+                info = extract.find_fn(src, u["fn"], 0, len(src))
             if u.get("inner_fn"):
                 info = extract.find_fn(src, u["inner_fn"], info["body_start"], info["body_end"])
             sig, body = extract.fn_parts(src, info)
@@ -169,9 +169,16 @@ def _emit_unit(gen, u):
                 m = loops[k]
                 ins = m.group(1) + m.group(2).rstrip() + "\n" + "".join(m.group(1) + "    " + l + "\n" for l in inv) + m.group(1) + "{"
                 new = new[:m.start()] + ins + new[m.end():]
+            for rid, pat, rpl, why in u.get("head_rewrites", ()):
+                head2, n = re.subn(pat, rpl, head)
+                if n:
+                    rep["rewrites"].append({"rewrite": rid, "count": n, "what": why + " (fn header)", "pattern": pat})
+                    head = head2
             if u.get("ret"):
-                # name the return value: `-> T` => `-> (r: T)`
-                head = re.sub(r"->\s*(.+?)\s*$", lambda m: f"-> ({u['ret']}: {m.group(1)})", head.strip(), flags=re.S)
+                # name the return value: the last `-> T` becomes `-> (r: T)`
+                head = head.strip()
+                k = head.rfind("->")
+                head = head[:k] + f"-> ({u['ret']}: {head[k + 2:].strip()})"
             head = re.sub(r"\bpub\(crate\)\s+", "pub ", head)
             head = re.sub(r"\bconst fn\b", "fn", head)
             hint = ""
